@@ -52,14 +52,16 @@ def check(ctx):
         od = fields.get("original_data")
         hd = fields.get("header")
         if f.key == WIRE_CTOR:
-            ok = od is not None and od[0] == "aggr" and od[2] == "Some" and od[3][0][1] == ("tryok", ("call", codec.TRY_BYTES, (("param", 0),), od[3][0][1][1][3]))
+            from lib.prov import strip_sites
+            ok = od is not None and od[0] == "aggr" and od[2] == "Some" and bool(od[3]) \
+                and strip_sites(od[3][0][1]) == ("tryok", ("call", codec.TRY_BYTES, (("param", 0),)))
             what = "the wire constructor stores Some(<the bytes extracted from its argument>)"
         elif f.key == BARE:
             ok = od == ("aggr", "core::option::Option", "None", ())
             what = "the bare-map conversion has no bytes to keep (None)"
         elif f.impl_trait in ("core::clone::Clone", "core::default::Default") and f.impl_self_adt == PH:
-            ok = True
-            what = "derived %s" % f.impl_trait
+            ok = bool(f.d.get("from_expansion"))       # compiler-derived: structural copy / all-empty value
+            what = "%s for ProtectedHeader is the derived one" % f.impl_trait.split("::")[-1]
         elif f.name == "protected" and f.impl_self_ty and f.impl_self_ty.endswith("Builder") and f.impl_trait is None:
             n_setters += 1
             ok = od == ("aggr", "core::option::Option", "None", ()) and hd == ("param", 1)
@@ -123,6 +125,11 @@ def check(ctx):
 
     # ---- R-3 -----------------------------------------------------------------------------------------------------
     check_cbor_bstr(ctx, "R-3")
+    from rules.c11 import check_protected_map_form
+    from rules import c13 as _c13
+    check_protected_map_form(ctx, "R-3")                       # what the None edge serialises
+    _c13.check_byte_api(ctx.under("R-3", "bytes-api"))         # ... through the un-overridden to_vec default
+    S.check_derived_impls(ctx, "R-5", {"core::clone::Clone"})
     check_is_empty(ctx, "R-3")
 
     # ---- R-4 nobody re-encodes --------------------------------------------------------------------------------------
